@@ -20,6 +20,7 @@ import (
 	sdkerrors "github.com/cosmos/cosmos-sdk/types/errors"
 	govv1beta1 "github.com/cosmos/cosmos-sdk/x/gov/types/v1beta1"
 	"github.com/palomachain/paloma/v2/verifharness/emit"
+	"github.com/palomachain/paloma/v2/x/skyway"
 	"github.com/palomachain/paloma/v2/x/skyway/keeper"
 	"github.com/palomachain/paloma/v2/x/skyway/types"
 	valsettypes "github.com/palomachain/paloma/v2/x/valset/types"
@@ -229,6 +230,9 @@ type window struct {
 	start      int64
 	sum        *big.Int
 	limitAtAcc *big.Int
+	// the chain was restarted from an exported genesis while this window was open (the real tally is
+	// not exported: known finding C15:usage-tally-lost-in-genesis-export)
+	crossedGenesis bool
 }
 
 var periodBlocks = map[int]int64{1: 57600, 2: 57600 * 7, 3: 57600 * 30, 4: 57600 * 365}
@@ -373,6 +377,7 @@ type histCtx struct {
 	opsHuman []string
 	focus    int
 	ws       []int // working set: the tokens this history holds, observes and operates on
+	ethH     uint64 // remote block height of the next voted claim
 	okCount  int
 	errCount int
 	replay   map[string]any
@@ -642,11 +647,17 @@ func (h *histCtx) doSend(height int64, sender, tok int, amount *big.Int, mal int
 			h.pend[newID] = &pending{id: int(newID), sender: sender, tok: tok, amount: new(big.Int).Set(amount), tax: expTax}
 		}
 		if lc != nil {
-			if wsum.Cmp(lc.limit) > 0 {
-				h.violate("C15:window-total-exceeds-limit", fmt.Sprintf("accepted transfers in the window starting at the restart total %s > limit %s", wsum, lc.limit))
-			}
 			w := h.win[tok]
-			if w == nil || !w.has || height-w.start >= periodBlocks[lc.period] {
+			fresh := w == nil || !w.has || height-w.start >= periodBlocks[lc.period]
+			if wsum.Cmp(lc.limit) > 0 {
+				if !fresh && w.crossedGenesis {
+					h.violate("C15:usage-tally-lost-in-genesis-export", fmt.Sprintf("accepted transfers of one limit window (restart rule) total %s > limit %s: the chain was restarted from an exported genesis inside the window and the usage tally is not part of the export", wsum, lc.limit))
+					h.run.Count("known-finding", "window total above the limit across a genesis restart")
+				} else {
+					h.violate("C15:window-total-exceeds-limit", fmt.Sprintf("accepted transfers in the window starting at the restart total %s > limit %s", wsum, lc.limit))
+				}
+			}
+			if fresh {
 				h.win[tok] = &window{has: true, start: height, sum: wsum}
 			} else {
 				w.sum = wsum
@@ -764,7 +775,60 @@ func (h *histCtx) doBatch(tok int) {
 	h.record(fmt.Sprintf("Batch %d", tok), fmt.Sprintf("Batch tok=%d", tok), true, out, tok, h.r.Intn(4), after)
 }
 
-func (h *histCtx) doExecute(tok int, nonce uint64, unbatch bool) {
+func (h *histCtx) doExecute(tok int, nonce uint64, unbatch bool) { h.doExecuteVia(tok, nonce, unbatch, false) }
+
+// executeByVote: the five validators' orchestrators submit MsgBatchSendToRemoteClaim for the next
+// skyway nonce (each inside its own transaction), then the end-blocker's attestation tally runs on the
+// block context: TryAttestation -> processAttestation -> handler -> OutgoingTxBatchExecuted.  Handler
+// errors are swallowed there (logged), so the outcome is read off the batch store.
+func (h *histCtx) executeByVote(tok int, nonce uint64) (out int) {
+	e := h.e
+	k := e.in.SkywayKeeper
+	contract, _ := types.NewEthAddress(e.toks[tok].contract)
+	existed := func() bool {
+		b, err := k.GetOutgoingTXBatch(h.root, *contract, nonce)
+		return err == nil && b != nil
+	}
+	had := existed()
+	last, err := k.GetLastObservedSkywayNonce(h.root, chain)
+	if err != nil {
+		panic(err)
+	}
+	h.ethH++
+	for v := 0; v < 5; v++ {
+		o := keeper.AccAddrs[v].String()
+		claim := &types.MsgBatchSendToRemoteClaim{EventNonce: last + 1, EthBlockHeight: h.ethH, BatchNonce: nonce, TokenContract: e.toks[tok].contract,
+			ChainReferenceId: chain, Orchestrator: o, SkywayNonce: last + 1, Metadata: valsettypes.MsgMetadata{Creator: o, Signers: []string{o}},
+			CompassId: k.GetLatestCompassID(h.root, chain)}
+		if err := claim.ValidateBasic(); err != nil {
+			panic("claim ValidateBasic: " + err.Error())
+		}
+		cerr, pan := deliver(h.root, true, func(ctx sdk.Context) error {
+			_, err := e.ms.BatchSendToRemoteClaim(ctx, claim)
+			return err
+		})
+		if cerr != nil || pan {
+			panic(fmt.Sprintf("fixture: validator %d could not submit its claim: %v panic=%v", v, cerr, pan))
+		}
+	}
+	terr, pan := deliver(h.root, false, func(ctx sdk.Context) error { return skyway.VerifC02AttestationTally(ctx, k, chain) })
+	now, err := k.GetLastObservedSkywayNonce(h.root, chain)
+	if err != nil {
+		panic(err)
+	}
+	if terr != nil || pan || now != last+1 {
+		panic(fmt.Sprintf("fixture: the tally did not observe the unanimous claim: err=%v panic=%v nonce %d -> %d", terr, pan, last, now))
+	}
+	switch {
+	case had && !existed():
+		return oOk
+	case !had:
+		return oNoBatch
+	}
+	return oOther
+}
+
+func (h *histCtx) doExecuteVia(tok int, nonce uint64, unbatch bool, voted bool) {
 	e := h.e
 	contract, _ := types.NewEthAddress(e.toks[tok].contract)
 	before := e.snapshot(h.root, h.ws)
@@ -772,15 +836,24 @@ func (h *histCtx) doExecute(tok int, nonce uint64, unbatch bool) {
 	if unbatch {
 		kind = "unbatch"
 	}
-	err, pan := deliver(h.root, true, func(ctx sdk.Context) error {
-		if unbatch {
-			return e.in.SkywayKeeper.CancelOutgoingTXBatch(ctx, *contract, nonce)
-		}
-		return e.in.SkywayKeeper.OutgoingTxBatchExecuted(ctx, *contract, types.MsgBatchSendToRemoteClaim{
-			BatchNonce: nonce, EthBlockHeight: 0, TokenContract: e.toks[tok].contract, ChainReferenceId: chain,
+	var out int
+	if voted && !unbatch && nonce > 0 { // a claim with batch nonce 0 does not pass ValidateBasic
+		out = h.executeByVote(tok, nonce)
+		h.run.Count("execute-route", "claims voted by 5 validators + attestation tally")
+	} else {
+		err, pan := deliver(h.root, true, func(ctx sdk.Context) error {
+			if unbatch {
+				return e.in.SkywayKeeper.CancelOutgoingTXBatch(ctx, *contract, nonce)
+			}
+			return e.in.SkywayKeeper.OutgoingTxBatchExecuted(ctx, *contract, types.MsgBatchSendToRemoteClaim{
+				BatchNonce: nonce, EthBlockHeight: 0, TokenContract: e.toks[tok].contract, ChainReferenceId: chain,
+			})
 		})
-	})
-	out := classify(kind, err, pan)
+		out = classify(kind, err, pan)
+		if !unbatch {
+			h.run.Count("execute-route", "OutgoingTxBatchExecuted called directly")
+		}
+	}
 	after := e.snapshot(h.root, h.ws)
 	key := fmt.Sprintf("%d/%d", tok, nonce)
 	if out == oOk {
@@ -816,6 +889,113 @@ func (h *histCtx) doExecute(tok int, nonce uint64, unbatch bool) {
 		name = "Unbatch"
 	}
 	h.record(fmt.Sprintf("%s %d %d", name, tok, nonce), fmt.Sprintf("%s tok=%d nonce=%d", name, tok, nonce), true, out, tok, h.r.Intn(4), after)
+}
+
+type pendDigest struct {
+	pool, batches string
+	taxes, limits string
+}
+
+func (h *histCtx) pendingDigest() pendDigest {
+	k := h.e.in.SkywayKeeper
+	var d pendDigest
+	txs, err := k.GetUnbatchedTransactions(h.root)
+	if err != nil {
+		panic(err)
+	}
+	var ps []string
+	for _, tx := range txs {
+		ps = append(ps, fmt.Sprintf("%d/%s/%s/%s/%s/%s", tx.Id, tx.Sender, tx.Erc20Token.Contract.GetAddress().Hex(), tx.Erc20Token.Amount, tx.BridgeTaxAmount, tx.DestAddress.GetAddress().Hex()))
+	}
+	sort.Strings(ps)
+	d.pool = strings.Join(ps, ";")
+	bs, err := k.GetOutgoingTxBatches(h.root)
+	if err != nil {
+		panic(err)
+	}
+	var bb []string
+	for _, b := range bs {
+		var items []string
+		for _, tx := range b.Transactions {
+			items = append(items, fmt.Sprintf("%d/%s/%s/%s", tx.Id, tx.Sender, tx.Erc20Token.Amount, tx.BridgeTaxAmount))
+		}
+		bb = append(bb, fmt.Sprintf("%d@%s[%s]", b.BatchNonce, b.TokenContract.GetAddress().Hex(), strings.Join(items, ",")))
+	}
+	sort.Strings(bb)
+	d.batches = strings.Join(bb, ";")
+	taxes, _ := k.AllBridgeTaxes(h.root)
+	var tt []string
+	for _, t := range taxes {
+		tt = append(tt, fmt.Sprintf("%q=%q%v", t.Token, t.Rate, t.ExemptAddresses))
+	}
+	sort.Strings(tt)
+	d.taxes = strings.Join(tt, ";")
+	limits, _ := k.AllBridgeTransferLimits(h.root)
+	var ll []string
+	for _, l := range limits {
+		ll = append(ll, fmt.Sprintf("%q=%s/%d%v", l.Token, l.Limit, l.LimitPeriod, l.ExemptAddresses))
+	}
+	sort.Strings(ll)
+	d.limits = strings.Join(ll, ";")
+	return d
+}
+
+// doGenesis: the chain is restarted from an exported genesis: ExportGenesis, every key of the module's
+// store deleted, InitGenesis (the bank ledger is the bank module's own genesis, left in place).
+func (h *histCtx) doGenesis() {
+	e := h.e
+	k := e.in.SkywayKeeper
+	before := e.snapshot(h.root, h.ws)
+	dBefore := h.pendingDigest()
+	_, pan := deliver(h.root, false, func(ctx sdk.Context) error {
+		gs := keeper.ExportGenesis(ctx, k)
+		st := k.VerifC11RawStore(ctx)
+		var keys [][]byte
+		it := st.Iterator(nil, nil)
+		for ; it.Valid(); it.Next() {
+			keys = append(keys, append([]byte{}, it.Key()...))
+		}
+		it.Close()
+		for _, key := range keys {
+			st.Delete(key)
+		}
+		keeper.InitGenesis(ctx, k, gs)
+		return nil
+	})
+	out := oOk
+	if pan {
+		out = oPanic
+		h.violate("C15:genesis-round-trip-panicked", "ExportGenesis / InitGenesis panicked on a state reached by sends, cancels, batches and governance settings")
+	}
+	after := e.snapshot(h.root, h.ws)
+	dAfter := h.pendingDigest()
+	if dBefore.taxes != dAfter.taxes || dBefore.limits != dAfter.limits {
+		h.violate("C15:genesis-lost-settings", fmt.Sprintf("bridge tax / transfer limit records differ after export+import: taxes %q -> %q, limits %q -> %q", dBefore.taxes, dAfter.taxes, dBefore.limits, dAfter.limits))
+	}
+	if dBefore.pool != dAfter.pool || dBefore.batches != dAfter.batches {
+		h.violate("C15:genesis-changed-pending-transfers", fmt.Sprintf("pending transfers (amount, recorded tax) differ after export+import: pool %q -> %q, batches %q -> %q", dBefore.pool, dAfter.pool, dBefore.batches, dAfter.batches))
+	}
+	lost := false
+	for _, t := range h.ws {
+		if before.bals[t] != nil && (before.escrow[t].Cmp(after.escrow[t]) != 0 || before.supply[t].Cmp(after.supply[t]) != 0) {
+			h.violate("C15:genesis-moved-funds", "export+import changed the module balance or the supply")
+		}
+		if before.usage[t] != nil && after.usage[t] == nil {
+			lost = true
+		}
+	}
+	for _, w := range h.win {
+		if w != nil && w.has {
+			w.crossedGenesis = true
+		}
+	}
+	h.run.Count("op", "genesis")
+	if lost {
+		h.run.Count("genesis", "a running usage tally was dropped")
+	} else {
+		h.run.Count("genesis", "no running tally")
+	}
+	h.record("Genesis", "Genesis export+import", true, out, h.focus, h.r.Intn(4), after)
 }
 
 // ---- one history ----
@@ -1300,8 +1480,10 @@ func structured(hostile bool) func(h *histCtx) {
 		}
 		n := 3 + r.Intn(10)
 		for i := 0; i < n; i++ {
-			k := r.Intn(20)
+			k := r.Intn(21)
 			switch {
+			case k == 20:
+				h.doGenesis()
 			case k < 11:
 				tok := pickTok()
 				sender := r.Intn(4)
@@ -1343,9 +1525,9 @@ func structured(hostile bool) func(h *histCtx) {
 					var tok int
 					var nonce uint64
 					fmt.Sscanf(keys[r.Intn(len(keys))], "%d/%d", &tok, &nonce)
-					h.doExecute(tok, nonce, r.Intn(3) == 0)
+					h.doExecuteVia(tok, nonce, r.Intn(3) == 0, r.Intn(2) == 0)
 				} else {
-					h.doExecute(pickMapped(), uint64(r.Intn(4)), r.Intn(2) == 0)
+					h.doExecuteVia(pickMapped(), uint64(r.Intn(4)), r.Intn(2) == 0, r.Intn(3) == 0)
 				}
 			case k < 19:
 				setTax(pickTok())
@@ -1432,6 +1614,41 @@ func corpus() []corpusCase {
 			h.doSetLimitSp(strings.ToLower(factoryUpper), 4, big.NewInt(50), 1, nil) // = the denom of token 5
 			h.doSend(h.height, 0, 4, big.NewInt(100), 0, true)                       // WETH: unlimited
 			h.doSend(h.height, 0, 5, big.NewInt(51), 0, true)                        // weth: rejected
+		}},
+		// the witness of Properties/C15.v window_total_across_genesis_refuted on the real keeper: the usage
+		// tally is not exported, the allowance is available again after a restart from genesis
+		{[]int{0, 1, 6}, 5000, func(h *histCtx) {
+			h.doSetLimit(0, big.NewInt(150), 1, nil)
+			h.doSend(h.height, 0, 0, big.NewInt(100), 0, true)
+			h.doGenesis()
+			h.doSend(h.height+1, 0, 0, big.NewInt(100), 0, true) // accepted: 200 in one window (known finding)
+			h.doSend(h.height+1, 0, 0, big.NewInt(51), 0, true)  // rejected by the new tally
+		}},
+		// more pending transfers than a batch holds (OutgoingTxBatchSize = 100): the batch takes the 100
+		// largest (amount, id), the rest stays cancellable; executions through voted claims; a restart from
+		// genesis with a batch open: the recorded taxes are burned all the same
+		{[]int{1, 6, 4}, 20000, func(h *histCtx) {
+			h.doSetTax(1, "1/7", []int{2})
+			for i := 0; i < 103; i++ {
+				h.doSend(h.height, i%4, 1, big.NewInt(int64(5+(i*7)%13)), 0, true)
+			}
+			h.doBatch(1)
+			var left []uint64
+			for id := range h.pend {
+				if !h.inBatch(id) {
+					left = append(left, id)
+				}
+			}
+			sort.Slice(left, func(i, j int) bool { return left[i] < left[j] })
+			if len(left) > 0 {
+				h.doCancel(h.pend[left[0]].sender, left[0])
+			}
+			h.doSend(h.height, 3, 1, big.NewInt(17), 0, true)
+			h.doBatch(1)
+			h.doExecuteVia(1, 1, false, true)
+			h.doGenesis()
+			h.doExecuteVia(1, 2, false, true)
+			h.doExecuteVia(1, 2, false, true) // again: unknown batch, nothing burned
 		}},
 	}
 }
